@@ -847,8 +847,10 @@ func c10SpecInvalid(sp *quic.QUICSpec, maxPacket int) string {
 	// longest configured packet-number length; the synthesised token -- an explicit store's
 	// token is not known before the dial)
 	hdr := c10MaxHeader(sp)
-	if hdr+16+4 > maxPacket {
-		return "token-no-room" // not a single CRYPTO byte fits: nothing can ever be sent
+	// room for a CRYPTO frame at any write offset: type, offset varint (up to 8 bytes), length
+	// byte, one byte of data -- with less the flight stalls (at offset 64 with only 4 bytes)
+	if hdr+16+11 > maxPacket {
+		return "token-no-room" // the ClientHello can never be sent completely
 	}
 	for _, pl := range ips.InitialPackets {
 		limit := maxPacket
